@@ -83,116 +83,6 @@ Proof.
   replace (2 * q + 1 - 1)%nat with (q * 2)%nat by lia. rewrite Nat.div_mul by lia. rewrite mult_INR. simpl. ring.
 Qed.
 
-(* ---------------------------------------------------------------- TanhSinh *)
-Lemma TanhSinh_deriv d j : is_derive (TanhSinh_points d) j (TanhSinh_weights d j).
-Proof.
-  unfold TanhSinh_points, TanhSinh_weights. cbv zeta. hyp_derive.
-  match goal with |- context [cosh ?a ^ 2] => pose proof (cosh_pos a) end. field. lra.
-Qed.
-Lemma TanhSinh_wpos d j : 0 < d -> 0 < TanhSinh_weights d j.
-Proof.
-  intros Hd. unfold TanhSinh_weights. cbv zeta. pose proof PI_RGT_0.
-  pose proof (cosh_pos (j * d)). pose proof (cosh_pos (1 / 2 * PI * sinh (j * d))).
-  apply Rmult_lt_0_compat; [|nra]. apply Rdiv_lt_0_compat; [assumption|]. apply pow_lt. assumption.
-Qed.
-Lemma TanhSinh_domain d j : -1 < TanhSinh_points d j < 1.
-Proof. unfold TanhSinh_points. cbv zeta. apply tanh_bounds. Qed.
-
-(* ---------------------------------------------------------------- ExpSinh *)
-Lemma ExpSinh_deriv h k : is_derive (ExpSinh_points h) k (ExpSinh_weights h k).
-Proof. unfold ExpSinh_points, ExpSinh_weights. cbv zeta. hyp_derive. field. Qed.
-Lemma ExpSinh_wpos h k : 0 < h -> 0 < ExpSinh_weights h k.
-Proof.
-  intros Hh. unfold ExpSinh_weights. cbv zeta. pose proof PI_RGT_0. pose proof (cosh_pos (k * h)).
-  pose proof (exp_pos (PI * sinh (k * h) / 2)).
-  apply Rdiv_lt_0_compat; [|lra]. apply pos4; assumption.
-Qed.
-Lemma ExpSinh_domain h k : 0 < ExpSinh_points h k.
-Proof. unfold ExpSinh_points. cbv zeta. apply exp_pos. Qed.
-
-(* ---------------------------------------------------------------- LogExpSinh *)
-Lemma LogExpSinh_deriv h k : is_derive (LogExpSinh_points h) k (LogExpSinh_weights h k).
-Proof.
-  unfold LogExpSinh_points, LogExpSinh_weights. cbv zeta.
-  pose proof (exp_pos (PI * sinh (k * h) / 2)) as He.
-  auto_derive.
-  - repeat split; first [apply ex_derive_sinh | exact I | idtac]. unfold Rdiv in He. lra.
-  - rewrite ?Derive_sinh. unfold Rdiv, Rminus. unfold Rdiv in He. field. lra.
-Qed.
-Lemma LogExpSinh_wpos h k : 0 < h -> 0 < LogExpSinh_weights h k.
-Proof.
-  intros Hh. unfold LogExpSinh_weights. cbv zeta. pose proof PI_RGT_0. pose proof (cosh_pos (k * h)).
-  pose proof (exp_pos (PI * sinh (k * h) / 2)).
-  apply Rdiv_lt_0_compat; [|lra]. apply Rdiv_lt_0_compat; [|lra]. apply pos4; assumption.
-Qed.
-Lemma LogExpSinh_domain h k : 0 < LogExpSinh_points h k.
-Proof.
-  unfold LogExpSinh_points. cbv zeta. pose proof (exp_pos (PI * sinh (k * h) / 2)).
-  rewrite <- ln_1. apply ln_increasing; lra.
-Qed.
-
-(* ---------------------------------------------------------------- ExpExp *)
-Lemma ExpExp_deriv h k : is_derive (ExpExp_points h) k (ExpExp_weights h k).
-Proof.
-  unfold ExpExp_points, ExpExp_weights. cbv zeta. auto_derive; [exact I|].
-  replace (- k * h) with (- (k * h)) by ring. rewrite (exp_Ropp (k * h)).
-  pose proof (exp_pos (k * h)). field. lra.
-Qed.
-Lemma ExpExp_wpos h k : 0 < h -> 0 < ExpExp_weights h k.
-Proof.
-  intros Hh. unfold ExpExp_weights. cbv zeta. pose proof (exp_pos (k * h)). pose proof (exp_pos (- exp (- k * h))).
-  apply Rmult_lt_0_compat; [apply Rmult_lt_0_compat; assumption|lra].
-Qed.
-Lemma ExpExp_domain h k : 0 < ExpExp_points h k.
-Proof. unfold ExpExp_points. cbv zeta. apply Rmult_lt_0_compat; apply exp_pos. Qed.
-
-(* ---------------------------------------------------------------- SingleTanh *)
-Lemma SingleTanh_deriv h k : is_derive (SingleTanh_points h) k (SingleTanh_weights h k).
-Proof.
-  unfold SingleTanh_points, SingleTanh_weights. cbv zeta. hyp_derive. pose proof (cosh_pos (k * h)). field. lra.
-Qed.
-Lemma SingleTanh_wpos h k : 0 < h -> 0 < SingleTanh_weights h k.
-Proof.
-  intros Hh. unfold SingleTanh_weights. cbv zeta. pose proof (cosh_pos (k * h)).
-  apply Rdiv_lt_0_compat; [assumption|]. apply pow_lt. assumption.
-Qed.
-Lemma SingleTanh_domain h k : -1 < SingleTanh_points h k < 1.
-Proof. unfold SingleTanh_points. cbv zeta. apply tanh_bounds. Qed.
-
-(* ---------------------------------------------------------------- SingleExp *)
-Lemma SingleExp_deriv h k : is_derive (SingleExp_points h) k (SingleExp_weights h k).
-Proof. unfold SingleExp_points, SingleExp_weights. cbv zeta. auto_derive; [exact I|ring]. Qed.
-Lemma SingleExp_wpos h k : 0 < h -> 0 < SingleExp_weights h k.
-Proof. intros Hh. unfold SingleExp_weights. cbv zeta. pose proof (exp_pos (k * h)). nra. Qed.
-Lemma SingleExp_domain h k : 0 < SingleExp_points h k.
-Proof. unfold SingleExp_points. cbv zeta. apply exp_pos. Qed.
-
-(* ---------------------------------------------------------------- SingleArcSinhExp *)
-Lemma SingleArcSinhExp_deriv h k : is_derive (SingleArcSinhExp_points h) k (SingleArcSinhExp_weights h k).
-Proof.
-  unfold SingleArcSinhExp_points, SingleArcSinhExp_weights. cbv zeta. unfold arcsinh.
-  pose proof (exp_pos (k * h)) as He.
-  assert (Hq : 0 < exp (k * h) ^ 2 + 1) by nra.
-  assert (Hs : 0 < sqrt (exp (k * h) ^ 2 + 1)) by (apply sqrt_lt_R0; exact Hq).
-  replace (exp (2 * h * k)) with (exp (k * h) ^ 2).
-  2:{ replace (2 * h * k) with (k * h + k * h) by ring. rewrite exp_plus. ring. }
-  auto_derive.
-  - assert (E : exp (k * h) * (exp (k * h) * 1) + 1 = exp (k * h) ^ 2 + 1) by ring.
-    rewrite !E. repeat split; try exact I; lra.
-  - assert (E : exp (k * h) * (exp (k * h) * 1) + 1 = exp (k * h) ^ 2 + 1) by ring.
-    rewrite !E. set (s := sqrt (exp (k * h) ^ 2 + 1)) in *. field. split; lra.
-Qed.
-Lemma SingleArcSinhExp_wpos h k : 0 < h -> 0 < SingleArcSinhExp_weights h k.
-Proof.
-  intros Hh. unfold SingleArcSinhExp_weights. cbv zeta. pose proof (exp_pos (k * h)). pose proof (exp_pos (2 * h * k)).
-  apply Rdiv_lt_0_compat; [nra|]. apply sqrt_lt_R0. lra.
-Qed.
-Lemma SingleArcSinhExp_domain h k : 0 < SingleArcSinhExp_points h k.
-Proof.
-  unfold SingleArcSinhExp_points. cbv zeta. rewrite <- arcsinh_0. apply arcsinh_lt. apply exp_pos.
-Qed.
-
-(* ---------------------------------------------------------------- 5. substitution rules *)
 Lemma subst_pack (P W : R -> R) h n k :
   h <> 0 -> (forall x, is_derive P x (W x)) -> (forall x, 0 < W x) ->
   is_derive P (kidx n k) (W (kidx n k)) /\
@@ -206,93 +96,7 @@ Proof.
   split; [exact Hi|apply Hi, kidx_lt].
 Qed.
 
-Lemma subst_TanhSinh_thm delta n k : 0 < delta ->
-  (is_derive (TanhSinh_points delta) (kidx n k) (wts_TanhSinh delta n k) /\
-   is_derive (fun t => TanhSinh_points delta (t / delta)) (kidx n k * delta) (wts_TanhSinh delta n k / delta) /\
-   0 < wts_TanhSinh delta n k /\
-   (forall a b, a < b -> TanhSinh_points delta a < TanhSinh_points delta b) /\
-   pts_TanhSinh delta n k < pts_TanhSinh delta n (S k)) /\
-  -1 < pts_TanhSinh delta n k < 1.
-Proof.
-  intros H. split; [|apply TanhSinh_domain].
-  apply (subst_pack (TanhSinh_points delta) (TanhSinh_weights delta)); [lra|apply TanhSinh_deriv|intros; apply TanhSinh_wpos; exact H].
-Qed.
-
-Lemma subst_ExpSinh_thm h n k : 0 < h ->
-  (is_derive (ExpSinh_points h) (kidx n k) (wts_ExpSinh h n k) /\
-   is_derive (fun t => ExpSinh_points h (t / h)) (kidx n k * h) (wts_ExpSinh h n k / h) /\
-   0 < wts_ExpSinh h n k /\
-   (forall a b, a < b -> ExpSinh_points h a < ExpSinh_points h b) /\
-   pts_ExpSinh h n k < pts_ExpSinh h n (S k)) /\
-  0 < pts_ExpSinh h n k.
-Proof.
-  intros H. split; [|apply ExpSinh_domain].
-  apply (subst_pack (ExpSinh_points h) (ExpSinh_weights h)); [lra|apply ExpSinh_deriv|intros; apply ExpSinh_wpos; exact H].
-Qed.
-
-Lemma subst_LogExpSinh_thm h n k : 0 < h ->
-  (is_derive (LogExpSinh_points h) (kidx n k) (wts_LogExpSinh h n k) /\
-   is_derive (fun t => LogExpSinh_points h (t / h)) (kidx n k * h) (wts_LogExpSinh h n k / h) /\
-   0 < wts_LogExpSinh h n k /\
-   (forall a b, a < b -> LogExpSinh_points h a < LogExpSinh_points h b) /\
-   pts_LogExpSinh h n k < pts_LogExpSinh h n (S k)) /\
-  0 < pts_LogExpSinh h n k.
-Proof.
-  intros H. split; [|apply LogExpSinh_domain].
-  apply (subst_pack (LogExpSinh_points h) (LogExpSinh_weights h)); [lra|apply LogExpSinh_deriv|intros; apply LogExpSinh_wpos; exact H].
-Qed.
-
-Lemma subst_ExpExp_thm h n k : 0 < h ->
-  (is_derive (ExpExp_points h) (kidx n k) (wts_ExpExp h n k) /\
-   is_derive (fun t => ExpExp_points h (t / h)) (kidx n k * h) (wts_ExpExp h n k / h) /\
-   0 < wts_ExpExp h n k /\
-   (forall a b, a < b -> ExpExp_points h a < ExpExp_points h b) /\
-   pts_ExpExp h n k < pts_ExpExp h n (S k)) /\
-  0 < pts_ExpExp h n k.
-Proof.
-  intros H. split; [|apply ExpExp_domain].
-  apply (subst_pack (ExpExp_points h) (ExpExp_weights h)); [lra|apply ExpExp_deriv|intros; apply ExpExp_wpos; exact H].
-Qed.
-
-Lemma subst_SingleTanh_thm h n k : 0 < h ->
-  (is_derive (SingleTanh_points h) (kidx n k) (wts_SingleTanh h n k) /\
-   is_derive (fun t => SingleTanh_points h (t / h)) (kidx n k * h) (wts_SingleTanh h n k / h) /\
-   0 < wts_SingleTanh h n k /\
-   (forall a b, a < b -> SingleTanh_points h a < SingleTanh_points h b) /\
-   pts_SingleTanh h n k < pts_SingleTanh h n (S k)) /\
-  -1 < pts_SingleTanh h n k < 1.
-Proof.
-  intros H. split; [|apply SingleTanh_domain].
-  apply (subst_pack (SingleTanh_points h) (SingleTanh_weights h)); [lra|apply SingleTanh_deriv|intros; apply SingleTanh_wpos; exact H].
-Qed.
-
-Lemma subst_SingleExp_thm h n k : 0 < h ->
-  (is_derive (SingleExp_points h) (kidx n k) (wts_SingleExp h n k) /\
-   is_derive (fun t => SingleExp_points h (t / h)) (kidx n k * h) (wts_SingleExp h n k / h) /\
-   0 < wts_SingleExp h n k /\
-   (forall a b, a < b -> SingleExp_points h a < SingleExp_points h b) /\
-   pts_SingleExp h n k < pts_SingleExp h n (S k)) /\
-  0 < pts_SingleExp h n k.
-Proof.
-  intros H. split; [|apply SingleExp_domain].
-  apply (subst_pack (SingleExp_points h) (SingleExp_weights h)); [lra|apply SingleExp_deriv|intros; apply SingleExp_wpos; exact H].
-Qed.
-
-Lemma subst_SingleArcSinhExp_thm h n k : 0 < h ->
-  (is_derive (SingleArcSinhExp_points h) (kidx n k) (wts_SingleArcSinhExp h n k) /\
-   is_derive (fun t => SingleArcSinhExp_points h (t / h)) (kidx n k * h) (wts_SingleArcSinhExp h n k / h) /\
-   0 < wts_SingleArcSinhExp h n k /\
-   (forall a b, a < b -> SingleArcSinhExp_points h a < SingleArcSinhExp_points h b) /\
-   pts_SingleArcSinhExp h n k < pts_SingleArcSinhExp h n (S k)) /\
-  0 < pts_SingleArcSinhExp h n k.
-Proof.
-  intros H. split; [|apply SingleArcSinhExp_domain].
-  apply (subst_pack (SingleArcSinhExp_points h) (SingleArcSinhExp_weights h));
-    [lra|apply SingleArcSinhExp_deriv|intros; apply SingleArcSinhExp_wpos; exact H].
-Qed.
-
 (* index array: n consecutive integers, symmetric about 0 for odd n *)
 Lemma subst_index_thm n k :
   kidx n (S k) = kidx n k + 1 /\ kidx n 0 = - INR ((n - 1) / 2) /\ (Nat.odd n = true -> kidx n (n - 1) = INR ((n - 1) / 2)).
 Proof. split; [apply kidx_S|split; [apply kidx_first|apply kidx_last]]. Qed.
-
